@@ -66,3 +66,46 @@ class Model:
 
     def reset(self):
         self.ring = [self.ring[0]] + [[] for _ in range(DEPTH - 1)]
+
+
+# ---------------------------------------------------------------- multi-frame sets (tdma_schedule_set)
+# A set is an array of items; an entry whose cb is NULL ends a frame, the entry whose cb is END ends the set.
+# Counting functions over the set's cb array (uninterpreted symbols + their recursive unfoldings; lemmas about them are
+# proved by induction in the property part):
+#   nul(m) = number of frame separators among entries [0, m)      = index of the frame entry m belongs to
+#   pos(m) = number of entries since the last separator before m  = position of entry m inside its frame
+
+_I, _A = z3.IntSort(), z3.ArraySort(z3.IntSort(), z3.IntSort())
+set_nul = z3.Function("set_nul", _A, _I, _I)
+set_pos = z3.Function("set_pos", _A, _I, _I)
+
+
+def nul(cb, m):
+    return set_nul(cb, m)
+
+
+def pos(cb, m):
+    return set_pos(cb, m)
+
+
+def set_unfold(cb, m):
+    """definitions at m >= 0"""
+    sep = z3.Select(cb, m) == 0
+    return z3.And(nul(cb, 0) == 0, pos(cb, 0) == 0,
+                  z3.Implies(m >= 0, z3.And(nul(cb, m + 1) == nul(cb, m) + z3.If(sep, 1, 0),
+                                            pos(cb, m + 1) == z3.If(sep, 0, pos(cb, m) + 1))))
+
+
+def set_frames_concrete(cbs, end):
+    """concrete reference: list of frames (lists of entry indices) of a set given as a list of cb codes"""
+    frames, cur = [], []
+    for m, cbv in enumerate(cbs):
+        if cbv == end:
+            frames.append(cur)
+            return frames
+        if cbv == 0:
+            frames.append(cur)
+            cur = []
+        else:
+            cur.append(m)
+    return None
